@@ -8,6 +8,7 @@ import rules_C01 as R1
 import rules_C02 as R2
 import census as C
 import flow as FL
+import models as M
 from sym import some, NONE, lit_int, mk_field, mk_payload
 
 LEVEL = "other"
@@ -281,10 +282,17 @@ def check_tokenizer(fx, rep, rule):
         rep.undecidable(rule, "%s/tokenizer/shape" % rule, loc=F.loc(e.node) if isinstance(e.node, dict) else "", construct=e.msg)
         return
     loops = sorted(sy.loops.values(), key=lambda L: L["index"])
-    if len(loops) != 2:
+    find_form = None
+    if len(loops) == 1:
+        # the object-type scan written as `iter.by_ref().find(|&(_, c)| c == ';')?` instead of an inner loop
+        finds = {("mcall",) + tuple(e[1:]) for st, o in loops[0]["paths"] for e in st.effects if e[0] == "call" and e[1] == "std::iter::Iterator::find"}
+        if len(finds) == 1:
+            find_form = list(finds)[0]
+    if len(loops) != 2 and find_form is None:
         rep.undecidable(rule, "%s/tokenizer/shape" % rule, loc=F.short_file(b["sp"]), construct="%d loops (expected the token loop and the object-type scan)" % len(loops))
         return
-    outer, inner = loops
+    outer = loops[0]
+    inner = loops[1] if find_form is None else None
     sig = ("in", b["params"][0]["pat"]["name"])
     sp_ = call("core::str::strip_prefix", sig, ("lit", "char", "("))
     rs = call("core::str::rsplit_once", mk_payload(sp_, "Some", "0"), ("lit", "char", ")"))
@@ -292,14 +300,15 @@ def check_tokenizer(fx, rep, rule):
     PT = S.short_path(prim[0])
     # role names of the loop-carried variables from the effects
     names_first = {e[1][1] for st, o in outer["paths"] for e in st.effects if e[0] == "assign" and e[1][0] == "place"}
-    names_last = {e[1][1] for st, o in inner["paths"] for e in st.effects if e[0] == "assign" and e[1][0] == "place"}
+    names_last = {e[1][1] for st, o in inner["paths"] for e in st.effects if e[0] == "assign" and e[1][0] == "place"} if inner else {"<find>"}
     pushes = {e[2][0][1] for st, o in outer["paths"] for e in st.effects if e[0] == "call" and e[1].endswith("Vec::push") and e[2][0][0] == "place"}
     if len(names_first) != 1 or len(names_last) != 1 or len(pushes) != 1:
         rep.undecidable(rule, "%s/tokenizer/state" % rule, loc=F.short_file(b["sp"]),
                         construct="state variables: token start %s, scan position %s, output %s" % (sorted(names_first), sorted(names_last), sorted(pushes)))
         return
     first = ("loop", list(names_first)[0], outer["index"])
-    last = ("loop", list(names_last)[0], inner["index"])
+    FIND = fc.rewrite(find_form, R.rw_iter) if find_form else None
+    last = ("loop", list(names_last)[0], inner["index"]) if inner else mk_field(mk_payload(FIND, "Some", "0"), "0")
     out = ("place", list(pushes)[0], ())
     idx, tok = mk_field(R.ELEM, "0"), mk_field(R.ELEM, "1")
 
@@ -310,6 +319,9 @@ def check_tokenizer(fx, rep, rule):
         if not o(("is", R.NEXT, "Some")):
             return ("end", ())
         if o(("eq", tok, ("lit", "char", "L"))):
+            if FIND is not None and not o(("is", FIND, "Some")):
+                # no terminator: the inner-loop form reaches the same None through the `ends_with(';')` guard
+                return ("ret", NONE, ())
             ty = get(first, last)
             if not o(("is", ty, "Some")):
                 return ("ret", NONE, ())
@@ -336,6 +348,8 @@ def check_tokenizer(fx, rep, rule):
                 o_.append(("assign", e[1][1], e[2]))
             elif e[0] == "call" and R.is_next(e[1]) or e[0] in ("loopsum", "inloop"):
                 continue
+            elif FIND is not None and e[0] == "call" and ("mcall",) + tuple(e[1:]) == FIND:
+                continue
             else:
                 o_.append(("other", e))
         return tuple(o_)
@@ -356,6 +370,28 @@ def check_tokenizer(fx, rep, rule):
         for conds, io, ro, comp in bad[:3]:
             rep.violation(rule, "%s/tokenizer/token-loop/%s" % (rule, R1.short_hash(S.cstr(conds) + repr(io))), loc=F.loc(outer["node"]),
                           found="when %s: %s" % (S.cstr(tuple((fc.rewrite(a, R.rw_iter), p_) for a, p_ in conds))[-400:], S.tstr(io)[:400]), expected=S.tstr(ro)[:400])
+    if find_form is not None:
+        # the scan: find() over the token iterator itself, predicate `c == ';'` on the character component
+        recv_ok = find_form[2][0][0] == "place" and any(e[0] == "call" and R.is_next(e[1]) and e[2][0] == find_form[2][0] for st, o_ in outer["paths"] for e in st.effects)
+        pred = M.closure_term(sy, find_form[2][1], 1, S.St(), {"sp": "?"}) if find_form[2][1][0] == "closure" else None
+        pred_ok = pred in (("eq", mk_field(("bound", 0), "1"), ("lit", "char", ";")), ("eq", ("lit", "char", ";"), mk_field(("bound", 0), "1")))
+        rep.check(rule, "%s/tokenizer/object-scan" % rule, recv_ok and pred_ok, loc=F.loc(outer["node"]),
+                  found="find() on the token iterator: %s; predicate %s" % (recv_ok, S.tstr(pred) if pred else "?"),
+                  expected="the scan consumes characters from the same iterator and stops at the first ';' (find(|(_, c)| c == ';'))")
+        inner = None
+    else:
+        _check_inner_scan(fx, rep, rule, b, outer, inner, last, outcome)
+    # first_idx starts at 0
+    init0 = False
+    for n_ in F.walk(b["body"]):
+        if n_.get("k") == "Block":
+            for s_ in n_["stmts"]:
+                if s_["k"] == "Let" and s_["pat"]["k"] == "Bind" and s_["pat"]["name"] == first[1] and s_.get("init") is not None:
+                    init0 = C.int_lit(s_["init"]) == 0
+    rep.check(rule, "%s/tokenizer/start-at-zero" % rule, init0, loc=F.short_file(b["sp"]), found="token start initialised to 0: %s" % init0, expected="0", nontrivial=False)
+
+
+def _check_inner_scan(fx, rep, rule, b, outer, inner, last, outcome):
     # inner scan: records every consumed index, stops at ';'; driven by the same char_indices iterator; starts at the index of 'L'
     ib = len(inner["entry"].conds)
     i_idx, i_c = mk_field(R.ELEM, "0"), mk_field(R.ELEM, "1")
@@ -385,14 +421,6 @@ def check_tokenizer(fx, rep, rule):
     rep.check(rule, "%s/tokenizer/object-scan" % rule, not bad2 and init_ok and drv_ok, loc=F.loc(inner["node"]),
               found="scan paths equal reference: %s; starts at the index of 'L': %s; continues the token iterator (by_ref): %s" % (not bad2, init_ok, drv_ok),
               expected="the scan consumes characters from the same iterator, records each index, and stops at the first ';'")
-    # first_idx starts at 0
-    init0 = False
-    for n_ in F.walk(b["body"]):
-        if n_.get("k") == "Block":
-            for s_ in n_["stmts"]:
-                if s_["k"] == "Let" and s_["pat"]["k"] == "Bind" and s_["pat"]["name"] == first[1] and s_.get("init") is not None:
-                    init0 = C.int_lit(s_["init"]) == 0
-    rep.check(rule, "%s/tokenizer/start-at-zero" % rule, init0, loc=F.short_file(b["sp"]), found="token start initialised to 0: %s" % init0, expected="0", nontrivial=False)
 
 
 def check_assembly(fx, rep, rule, name, conv_name):
